@@ -84,7 +84,7 @@ def _when(draw):
             # ... and then lets 0..5 further loop iterations pass inside that instant (the read loop decodes the answer,
             # the subscriber task is created, its first step runs, ...)
             "after": draw(st.sampled_from([False, False, True])), "turns": draw(st.integers(0, 7)),
-            "last_answer": draw(st.sampled_from([False, False, False, True])), "uniform": draw(st.one_of(st.none(), st.none(), st.integers(0, 800 * 16).map(lambda x: x / 16.0)))}
+            "last_answer": draw(st.sampled_from([False, False, False, True])), "reopen": draw(st.booleans()), "uniform": draw(st.one_of(st.none(), st.none(), st.integers(0, 800 * 16).map(lambda x: x / 16.0)))}
 
 
 def _mk_api(case):
@@ -442,6 +442,25 @@ def check_sock(case, when, stats: Stats | None):
             bad("close-failed", f"close(): {o!r}")
         rig.net.heal()
         rig.loop.settle()
+        if when.get("reopen"):
+            # the socket is opened again straight away (what a re-init does): it must behave like a fresh one - connect,
+            # and transmit nothing of its own accord; in particular nothing that was submitted before close()
+            n_conn = len(rig.net.conns)
+            r = rig.loop.call(rig.sock.open_socket())
+            if r[0] != "ok":
+                bad("reopen-failed", f"open_socket() after close(): {r!r}")
+            rig.loop.advance(3.0)
+            new = rig.net.conns[n_conn:]
+            if not new or not rig.sock.is_connected:
+                bad("reopen-no-connection", "a re-opened socket did not connect within 3 s to an accepting console")
+            stale = b"".join(c.tx_bytes() for c in new)
+            if stale:
+                bad("stale-message-after-reopen", f"a re-opened socket transmitted {len(stale)} bytes nobody submitted after the "
+                                                  f"re-open ({stale.hex()[:60]}): messages held at close() survived it")
+            o2 = rig.loop.call(rig.sock.close())
+            if o2[0] != "ok":
+                bad("close-failed", f"second close(): {o2!r}")
+            rig.loop.settle()
         _post_checks(bad, rig, sd, len(rig.net.log), api=False)
         ph = sd["phase"]
         classes = ["sock", f"gen{case['gen']}", "phase:connected" if ph[0] else ("phase:connecting" if ph[1] else "phase:backoff-or-idle")]
@@ -449,6 +468,8 @@ def check_sock(case, when, stats: Stats | None):
             classes.append("pending-messages")
         if full.get("write_fault"):
             classes.append("write-fault-in-caller-task")
+        if when.get("reopen"):
+            classes.append("reopened")
         if same_instant:
             classes.append("same-instant")
         if stats is not None:
